@@ -1301,9 +1301,12 @@ def _check_hit(where, o, op, p, g, delay, unstable, overlapping=False, condition
     if _no_cache_requested(op):
         bad.append(('%s: request carried no-cache but the handler was not reached' % where,
                     'no_cache_request_served_from_cache'))
-    if collided or n1:
-        # two different URLs of this history share one store key (finding C15-N1): whatever else is wrong with a
-        # response served under that key (the other URL's Vary list, its invalidation) is that finding
+    if n1:
+        # the response served was produced for ANOTHER URL whose text path+?+query is the same (finding C15-N1,
+        # repaired by e10b542): whatever else is wrong with it (the other URL's Vary list, its invalidation) is that
+        # finding.  (Two such URLs merely occurring in one history - `collided` - no longer relabels anything: since the
+        # repair they do not share a store entry, and a response served for its OWN URL across a changed Vary list is
+        # F16b whatever other URLs the history holds.)
         bad = [(w, 'N1:path_with_question_mark') for w, _ in bad]
     return bad
 
